@@ -12,7 +12,7 @@ disable/enable reloads, with own certificate `me`. The reply is about the first 
 (miekg/dns `SetReply` copies only that one): `qs.take 1`.
 "Known name" = a name the responder holds an address record for (`nameExists`).
 -/
-import Nebula.Lemmas.DnsSpec
+import Nebula.Lemmas.DnsPublished
 
 namespace Nebula.Props.C44
 open Nebula.Net Nebula.Dns Nebula.Spec.Dns Nebula.Lemmas.Dns
@@ -130,6 +130,70 @@ theorem case_insensitive (s : St) (qtype : Nat) (n n' : Name) (h : lower n = low
 theorem other_opcode_empty (s : St) (client : Addr) (opcode : Nat) (qs : List Question) (h : opcode ≠ 0) :
     handle s client opcode qs = { rcode := rcodeSuccess, answers := [] } := by
   simp [handle, h]
+
+/-- History-level NXDOMAIN clause: a name-error reply is given only when the asked name is not a known
+name, i.e. not the (case-insensitive) FQDN of a certificate seen in a handshake since DNS was last
+disabled, nor the responder's own. -/
+theorem nxdomain_only_unknown_names (me : Self) (evs : List Ev) (client : Addr) (opcode : Nat)
+    (qs : List Question) (h : (handle (run me evs) client opcode qs).rcode = rcodeNameError) :
+    ∀ q ∈ qs.take 1, known me evs q.name = false := by
+  intro q hq
+  rw [known_eq_nameExists]
+  exact (nxdomain_only_unknown _ client opcode qs h).2 q hq
+
+/-- A known name — whatever the question type — is answered NOERROR (NODATA when it lacks the type). -/
+theorem known_name_nodata (me : Self) (evs : List Ev) (client : Addr) (opcode : Nat)
+    (q : Question) (rest : List Question) (hk : known me evs q.name = true) :
+    (handle (run me evs) client opcode (q :: rest)).rcode = rcodeSuccess :=
+  known_name_noerror _ client opcode q rest (by rw [← known_eq_nameExists]; exact hk)
+
+/-- The model's reply passes the complete property oracle of the correspondence driver
+(`Spec.Dns.respViolation`) after every history, for every client and request. -/
+theorem model_satisfies_oracle (me : Self) (evs : List Ev) (client : Addr) (opcode : Nat) (qs : List Question) :
+    respViolation me evs client (qs.take 1) (handle (run me evs) client opcode qs) = none := by
+  have hall : ∀ a ∈ (handle (run me evs) client opcode qs).answers,
+      answerOK me evs client (qs.take 1) a = true := by
+    intro a ha
+    cases a with
+    | a name addr =>
+      obtain ⟨h1, h2, q, hq, h3, h4⟩ := a_answers_from_certs me evs client opcode qs name addr ha
+      simp only [answerOK, h1, h2, Bool.and_true, Bool.true_and]
+      exact Bool.and_eq_true_iff.mpr ⟨by decide, List.any_eq_true.mpr ⟨q, hq, by simp [h3, h4]⟩⟩
+    | aaaa name addr =>
+      obtain ⟨h1, h2, q, hq, h3, h4⟩ := aaaa_answers_from_certs me evs client opcode qs name addr ha
+      simp only [answerOK, h1, h2, Bool.and_true, Bool.true_and]
+      exact Bool.and_eq_true_iff.mpr ⟨by decide, List.any_eq_true.mpr ⟨q, hq, by simp [h3, h4]⟩⟩
+    | txt name c =>
+      obtain ⟨h1, q, hq, h3, h4, ip, h5, h6⟩ := txt_only_local me evs client opcode qs name c ha
+      simp only [answerOK, h1, Bool.true_and]
+      exact List.any_eq_true.mpr ⟨q, hq, by simp [h3, h4, h5, h6]⟩
+  have hfind : (handle (run me evs) client opcode qs).answers.find?
+      (fun a => !answerOK me evs client (qs.take 1) a) = none := by
+    rw [List.find?_eq_none]
+    intro a ha
+    simp [hall a ha]
+  unfold respViolation
+  rw [hfind]
+  simp only
+  by_cases hrc : (handle (run me evs) client opcode qs).rcode = rcodeNameError
+  · have hnx := nxdomain_only_unknown _ client opcode qs hrc
+    have hkn := nxdomain_only_unknown_names me evs client opcode qs hrc
+    have hq : (qs.take 1).find? (fun q => known me evs q.name) = none := by
+      rw [List.find?_eq_none]; intro q hq; simp [hkn q hq]
+    simp [hrc, hnx.1, hq]
+  · have h0 : (handle (run me evs) client opcode qs).rcode = rcodeSuccess := by
+      unfold handle at hrc ⊢
+      split
+      · rename_i hop
+        simp only [hop, if_true, parseQuery] at hrc ⊢
+        split
+        · rename_i hc; simp only [hc, if_true] at hrc; exact absurd trivial hrc
+        · rfl
+      · rfl
+    have hne : ((handle (run me evs) client opcode qs).rcode == rcodeNameError) = false := by
+      rw [h0]; decide
+    have hd : ¬ (rcodeSuccess = rcodeNameError) := by decide
+    simp [h0, hd]
 
 /-! Non-vacuity: a concrete history in which every kind of reply occurs. -/
 
